@@ -2,7 +2,7 @@
    unquote) over C03/Model.v (quote, converters, matcher).  roundtrip c v says: to_url builds a text u,
    the delivered text unquote u is in the converter's language, and to_python of it is v. *)
 From Coq Require Import ZArith.
-From Wz Require Import lib.Bytes lib.Utf8 C03.Gen C03.Trie C03.Model C04.Model C04.Proofs.
+From Wz Require Import lib.Bytes lib.Utf8 C03.Gen C03.Trie C03.Model C03.Proofs C04.Model C04.Proofs C04.MapProofs.
 Open Scope N_scope.
 
 (* percent-encoding: what quote produces (any safe set without the percent sign) is read back by unquote *)
@@ -65,6 +65,66 @@ Theorem C04_float_roundtrip : forall (F : Type) (fstr : F -> str) (fparse : str 
   forall x, canonical x ->
     exists u, to_url (CFloat signed) (VFloat (fstr x)) = BOk u
       /\ in_lang (lang_of (CFloat signed)) (unquote u) = true
-      /\ exists t, to_python (CFloat signed) (unquote u) = Some (VFloat t) /\ fparse t = x.
+      /\ exists t, to_python (CFloat signed) (unquote u) = Some (VFloatRaw t) /\ fparse t = x.
 Proof. exact float_roundtrip. Qed.
 Print Assumptions C04_float_roundtrip.
+
+(* C04_build_then_match, at the level of StateMachineMatcher.match (before the adapter consults the builder
+   again for defaults / alias canonicalisation): in a map whose rules have no subdomain part and pairwise
+   distinct non-empty literal first segments (map_distinct), for a rule r of the map and values such that
+     segs_built: every literal of r is text without a slash, every variable of r has a value in the canonical
+                 domain of its converter (canon: to_url builds text that decodes to t, t is in the converter's
+                 language and converts back to the value) whose text has no slash, and is not shadowed by a default;
+     tail_built: a trailing <path:name> has a text value that does not begin or end with a slash,
+   Rule.build succeeds, and the path a server delivers for the built URL (percent-decoded) is matched by r
+   itself with exactly these values (floats as float(text)).  canon is inhabited for string/path
+   (C04.MapProofs.canon_text), any (canon_any), int (canon_int) and uuid (canon_uuid). *)
+Theorem C04_build_then_match : forall m r vals ts caps vs tts restP tcaps tvs meth ws,
+  map_distinct m -> In r (m_rules m) ->
+  segs_built (r_defaults r) vals (r_segs r) ts caps vs ->
+  tail_built (r_defaults r) vals (is_branch r) (r_tail r) tts restP tcaps tvs ->
+  rmethod_ok r meth = true -> r_websocket r = ws ->
+  exists path, build_rule r vals = BOk ([], path)
+    /\ matcher_run m (trie_of m) [] (path_part (unquote path)) meth ws = MOk rule (list (str * value)) r (vs ++ tvs).
+Proof. exact build_then_match. Qed.
+Print Assumptions C04_build_then_match.
+
+(* the hypotheses are satisfiable: Map([Rule('/users/<int:id>/x-<string:n>'), Rule('/all/')]), id=42, n='\xe9 %' *)
+Example C04_build_then_match_example :
+  map_distinct ex_map4
+  /\ (exists ts caps vs, segs_built (r_defaults ex_users) ex_vals (r_segs ex_users) ts caps vs
+        /\ vs = [([105; 100], VInt 42); ([110], VStr [233; 32; 37])])
+  /\ build_rule ex_users ex_vals = BOk ([], [47] ++ USERS ++ [47; 52; 50; 47; 120; 45; 37; 67; 51; 37; 65; 57; 37; 50; 48; 37; 50; 53])
+  /\ matcher_run ex_map4 (trie_of ex_map4) []
+       (path_part (unquote ([47] ++ USERS ++ [47; 52; 50; 47; 120; 45; 37; 67; 51; 37; 65; 57; 37; 50; 48; 37; 50; 53]))) GET false
+     = MOk rule (list (str * value)) ex_users [([105; 100], VInt 42); ([110], VStr [233; 32; 37])].
+Proof. exact (conj ex_map4_distinct (conj ex_segs_built ex_build_match)). Qed.
+Print Assumptions C04_build_then_match_example.
+
+(* C04_match_then_build: ... and the URL built from what that match returned is the URL that was matched
+   (variable names of the rule pairwise distinct; not_float: a float comes back as float(text), whose str()
+   the model does not compute - floats are covered by the contract theorem C04_float_roundtrip and the harness) *)
+Theorem C04_match_then_build : forall m r vals ts caps vs tts restP tcaps tvs meth ws,
+  map_distinct m -> In r (m_rules m) ->
+  segs_built (r_defaults r) vals (r_segs r) ts caps vs ->
+  tail_built (r_defaults r) vals (is_branch r) (r_tail r) tts restP tcaps tvs ->
+  NoDup (flat_map seg_names (r_segs r) ++ match r_tail r with Some n => [n] | None => [] end) ->
+  Forall (fun kv => not_float (snd kv)) vs ->
+  rmethod_ok r meth = true -> r_websocket r = ws ->
+  exists path,
+    build_rule r vals = BOk ([], path)
+    /\ matcher_run m (trie_of m) [] (path_part (unquote path)) meth ws = MOk rule (list (str * value)) r (vs ++ tvs)
+    /\ build_rule r (vs ++ tvs) = BOk ([], path).
+Proof. exact build_match_build. Qed.
+Print Assumptions C04_match_then_build.
+
+(* the canonical domains of int and uuid values, for C04_build_then_match *)
+Theorem C04_canon_int : forall fixed mn mx sg z,
+  int_domain fixed mn mx sg z = true -> exists t, canon (CInt fixed mn mx sg) (VInt z) t /\ no_slash t = true.
+Proof. exact canon_int. Qed.
+Print Assumptions C04_canon_int.
+
+Theorem C04_canon_text : forall c s,
+  is_text_conv c = true -> valid_text s = true -> in_lang (lang_of c) s = true -> canon c (VStr s) s.
+Proof. exact canon_text. Qed.
+Print Assumptions C04_canon_text.
